@@ -711,7 +711,7 @@ func init() {
 		}
 		return 4, 6, 3
 	}
-	fw.Register(&fw.Prop{
+	register(&fw.Prop{
 		ID: "C01",
 		Rule: "(a) depth-first search over token sequences (66 spellings: every keyword, operator and punctuation mark, identifiers, $-names, literals, newline, a comment) with exact dead-prefix pruning through the parse hook: a prefix is dead when the parser fails without having asked for a token beyond it, so no extension can differ; " +
 			"every live prefix that parses is run on 5 inputs (array, scalar, object, none, truncated) with the loop limit on and off and its root serialised, every live prefix is also used as a -r selector; a deeper search over a 27-spelling sub-alphabet that still spells every rule kind, functions, loops, match and all five signals; " +
